@@ -26,11 +26,14 @@ bool sqf::parser::config::parser::apply_to_confighost(::sqf::parser::config::bis
     switch (node.kind)
     {
         
+           // (an entry that was a value before and is defined as class now is a class: the old value is gone, and the other way round)
            case ::sqf::parser::config::bison::astkind::CLASS_DEF: {
-               parent.append_or_replace(node.children[0].token.contents);
+               auto nav = parent.append_or_replace(node.children[0].token.contents);
+               nav.value({});
            } break;
            case ::sqf::parser::config::bison::astkind::CLASS_DEF_EXT: {
                auto nav = parent.append_or_replace(node.children[0].token.contents, node.children[1].token.contents);
+               nav.value({});
                if (nav.parent_inherited().empty())
                {
                    __log(err::InheritedParentNotFound({ *node.token.path, node.token.line, node.token.column }, node.children[0].token.contents, node.children[1].token.contents));
@@ -38,6 +41,7 @@ bool sqf::parser::config::parser::apply_to_confighost(::sqf::parser::config::bis
            } break;
            case ::sqf::parser::config::bison::astkind::CLASS: {
                auto nav = parent.append_or_replace(node.children[0].token.contents);
+               nav.value({});
                for (auto subnode : node.children[1].children)
                {
                    apply_to_confighost(subnode, confighost, nav);
@@ -45,6 +49,7 @@ bool sqf::parser::config::parser::apply_to_confighost(::sqf::parser::config::bis
            } break;
            case ::sqf::parser::config::bison::astkind::CLASS_EXT: {
                auto nav = parent.append_or_replace(node.children[0].token.contents, node.children[1].token.contents);
+               nav.value({});
                if (nav.parent_inherited().empty())
                {
                    __log(err::InheritedParentNotFound({ *node.token.path, node.token.line, node.token.column }, node.children[0].token.contents, node.children[1].token.contents));
@@ -59,14 +64,17 @@ bool sqf::parser::config::parser::apply_to_confighost(::sqf::parser::config::bis
            } break;
            case ::sqf::parser::config::bison::astkind::FIELD: {
                auto nav = parent.append_or_replace(node.children[0].token.contents);
+               nav.become_value();
                apply_to_confighost(node.children[1], confighost, nav);
            } break;
            case ::sqf::parser::config::bison::astkind::FIELD_ARRAY: {
                auto nav = parent.append_or_replace(node.children[0].token.contents);
+               nav.become_value();
                apply_to_confighost(node.children[1], confighost, nav);
            } break;
            case ::sqf::parser::config::bison::astkind::FIELD_ARRAY_APPEND: {
                auto nav = parent.append_or_replace(node.children[0].token.contents);
+               nav.become_value();
                apply_to_confighost(node.children[1], confighost, nav);
 
                auto parent_inherited = nav.parent_logical().parent_inherited();
